@@ -100,6 +100,15 @@ def new (t : Int) (funds : α) (fee : FeeModel α) : Except Err (Broker α) :=
   if lt funds zero then .error .value
   else .ok { clock := t, master := (if lt zero funds then funds else zero), fee := fee }
 
+/-- the whole constructor: `_set_base_currency` first (`base_currency in settings.SUPPORTED['CURRENCIES']`, the list is a
+parameter read from the code's settings on every run), then `_set_initial_funds` (`new`); both refusals are `ValueError` -/
+def create (supported : List String) (cur : String) (t : Int) (funds : α) (fee : FeeModel α) : Except Err (Broker α) :=
+  if supported.contains cur then new t funds fee else .error .value
+
+/-- `get_account_cash_balance(currency)`: one balance per supported currency, all zero but the base currency's -/
+def accountCash (b : Broker α) (supported : List String) (base cur : String) : Except Err α :=
+  if supported.contains cur then .ok (if cur == base then b.master else zero) else .error .value
+
 def find? (b : Broker α) (pid : String) : Option (PfEntry α) :=
   List.find? (fun e => e.pf.id == pid) b.entries
 
